@@ -1,4 +1,5 @@
 import N0Verif.Proofs.XPathListRoot
+import N0Verif.Proofs.XPathDeleteRec
 /-!
   String-level spellings of a path: prefix none / `/` / `//`, an index step attached (`a[0]`,
   `[0][1]`) or written as a separate step (`a/[0]`, `[0]/[1]`), and per index the spellings
@@ -444,33 +445,61 @@ theorem stepsGet_idx_inv {v c : Val} {e : IdxSp} {sep : Bool} {rest : List StepS
       | some y => exact ⟨cls, xs, n, y, rfl, hn, hx, by simpa [hn, hx] using h⟩
   | _ => simp [stepsGet] at h
 
+/-- the position the steps walk to (normalised indexes); `[]` when the walk fails -/
+def posOf : Val → List StepSp → Pos
+  | _, [] => []
+  | .dict _ kvs, .key k :: rest =>
+    match lookup k kvs with
+    | some c => .key k :: posOf c rest
+    | Option.none => []
+  | .list _ xs, .idx e _ :: rest =>
+    match normIdx e.val xs.length with
+    | some n =>
+      match xs[n]? with
+      | some c => .idx n :: posOf c rest
+      | Option.none => []
+    | Option.none => []
+  | _, _ => []
+
+theorem posOf_key {cls : Cls} {kvs : List (Str × Val)} {k : Str} {x : Val} (rest : List StepSp)
+    (hl : lookup k kvs = some x) : posOf (.dict cls kvs) (.key k :: rest) = .key k :: posOf x rest := by
+  simp [posOf, hl]
+
+theorem posOf_idx {cls : Cls} {xs : List Val} {e : IdxSp} {sep : Bool} {n : Nat} {y : Val} (rest : List StepSp)
+    (hn : normIdx e.val xs.length = some n) (hx : xs[n]? = some y) :
+    posOf (.list cls xs) (.idx e sep :: rest) = .idx n :: posOf y rest := by
+  simp [posOf, hn, hx]
+
 theorem spells_steps : ∀ (steps : List StepSp) (v c : Val), PlainSteps steps → stepsGet v steps = some c →
-    ∃ p, Spells (toksOf steps) v p c
+    Spells (toksOf steps) v (posOf v steps) c
   | [], v, c, _, h => by
-    simp [stepsGet] at h; subst h; exact ⟨[], .nil v⟩
+    simp [stepsGet] at h; subst h; exact .nil v
   | [.key k], v, c, hp, h => by
     obtain ⟨cls, kvs, x, rfl, hl, hr⟩ := stepsGet_key_inv h
     simp [stepsGet] at hr; subst hr
-    exact ⟨[.key k], .key hp.1.keyTok hl (.nil _)⟩
+    rw [posOf_key _ hl]
+    exact .key hp.1.keyTok hl (.nil _)
   | .key k :: .key k2 :: rest, v, c, hp, h => by
     obtain ⟨cls, kvs, x, rfl, hl, hr⟩ := stepsGet_key_inv h
-    obtain ⟨p, ih⟩ := spells_steps (.key k2 :: rest) x c hp.2 hr
-    rw [toksOf_key_cons k _ (by intro e r h; cases h)]
-    exact ⟨.key k :: p, .key hp.1.keyTok hl ih⟩
+    have ih := spells_steps (.key k2 :: rest) x c hp.2 hr
+    rw [toksOf_key_cons k _ (by intro e r h; cases h), posOf_key _ hl]
+    exact .key hp.1.keyTok hl ih
   | .key k :: .idx e true :: rest, v, c, hp, h => by
     obtain ⟨cls, kvs, x, rfl, hl, hr⟩ := stepsGet_key_inv h
-    obtain ⟨p, ih⟩ := spells_steps (.idx e true :: rest) x c hp.2 hr
-    rw [toksOf_key_cons k _ (by intro e r h; cases h)]
-    exact ⟨.key k :: p, .key hp.1.keyTok hl ih⟩
+    have ih := spells_steps (.idx e true :: rest) x c hp.2 hr
+    rw [toksOf_key_cons k _ (by intro e r h; cases h), posOf_key _ hl]
+    exact .key hp.1.keyTok hl ih
   | .key k :: .idx e false :: rest, v, c, hp, h => by
     obtain ⟨cls, kvs, x, rfl, hl, hr⟩ := stepsGet_key_inv h
     obtain ⟨cls', xs, n, y, rfl, hn, hx, hr2⟩ := stepsGet_idx_inv hr
-    obtain ⟨p, ih⟩ := spells_steps rest y c hp.2 hr2
-    exact ⟨.key k :: .idx n :: p, .keyIdx (e.keyIdxTok hp.1) hl hn hx ih⟩
+    have ih := spells_steps rest y c hp.2 hr2
+    rw [posOf_key _ hl, posOf_idx _ hn hx]
+    exact .keyIdx (e.keyIdxTok hp.1) hl hn hx ih
   | .idx e sep :: rest, v, c, hp, h => by
     obtain ⟨cls', xs, n, y, rfl, hn, hx, hr2⟩ := stepsGet_idx_inv h
-    obtain ⟨p, ih⟩ := spells_steps rest y c hp hr2
-    exact ⟨.idx n :: p, .idx e.idxTok hn hx ih⟩
+    have ih := spells_steps rest y c hp hr2
+    rw [posOf_idx _ hn hx]
+    exact .idx e.idxTok hn hx ih
 
 theorem toksOf_length_le (steps : List StepSp) : (toksOf steps).length ≤ steps.length := by
   induction steps using toksOf.induct with
@@ -518,7 +547,7 @@ theorem getCore_spelling_dict (fuel : Nat) (cls : Cls) (kvs : List (Str × Val))
     (hp : PlainSteps steps) (hne : steps ≠ []) (hget : stepsGet (.dict cls kvs) steps = some c)
     (hf : fuel ≥ 2 * steps.length) :
     getCore fuel (.dict cls kvs) (renderSp lead steps) d raise rl = (.dict cls kvs, .ok c) := by
-  obtain ⟨p, hs⟩ := spells_steps steps _ c hp hget
+  have hs := spells_steps steps _ c hp hget
   have htok := tokenize_renderSp lead steps hp
   have hlen := toksOf_length_le steps
   -- the first step is a key
@@ -540,7 +569,7 @@ theorem getCore_spelling_dict (fuel : Nat) (cls : Cls) (kvs : List (Str × Val))
         unfold renderSp; rw [hbody]
         cases lead <;> simp [leadStr, startsWith, hxq]
       by_cases hpc : hasPathChar (renderSp lead (.key (x :: k') :: r)) = true
-      · exact getCore_dict_path fuel cls kvs _ d raise rl p c hq hpc (by rw [htok]; exact hs)
+      · exact getCore_dict_path fuel cls kvs _ d raise rl _ c hq hpc (by rw [htok]; exact hs)
           (by rw [htok]; exact toksOf_ne_nil _ (by simp)) (by rw [htok]; omega)
       · -- only the relative one-key spelling has no '/' and no '['
         have hr0 : r = [] := by
@@ -574,7 +603,7 @@ theorem getCore_spelling_list (fuel : Nat) (cls : Cls) (xs : List Val) (lead : L
     (hp : PlainSteps steps) (hne : steps ≠ []) (hget : stepsGet (.list cls xs) steps = some c)
     (hf : fuel ≥ 2 * steps.length) :
     getCore fuel (.list cls xs) (renderSp lead steps) d raise rl = (.list cls xs, .ok c) := by
-  obtain ⟨p, hs⟩ := spells_steps steps _ c hp hget
+  have hs := spells_steps steps _ c hp hget
   have htok := tokenize_renderSp lead steps hp
   have hlen := toksOf_length_le steps
   cases steps with
@@ -591,7 +620,52 @@ theorem getCore_spelling_list (fuel : Nat) (cls : Cls) (xs : List Val) (lead : L
       have hpc : hasPathChar (renderSp lead (.idx e sep :: r)) = true := by
         refine hasPathChar_of_mem (ch := '[') ?_ (Or.inr rfl)
         unfold renderSp; rw [hbody]; simp
-      exact getCore_list_path fuel cls xs _ d raise rl p c hq hpc (by rw [htok]; exact hs)
+      exact getCore_list_path fuel cls xs _ d raise rl _ c hq hpc (by rw [htok]; exact hs)
         (by rw [htok]; exact toksOf_ne_nil _ (by simp)) (by rw [htok]; omega)
+
+/-! ### `first` -/
+
+/-- `first` returns what `_get` (with `return_lists=False`) returns unless that is a one-element list -/
+theorem first_of_getCore {fuel : Nat} {t : Val} {xp : Str} {d c : Val}
+    (h : getCore fuel t xp d false false = (t, .ok c)) (hc : ∀ cl x, c ≠ .list cl [x]) :
+    first fuel t xp d = (t, .ok c) := by
+  unfold first
+  rw [h]
+  cases c with
+  | list cl ys =>
+    cases ys with
+    | nil => rfl
+    | cons y ys =>
+      cases ys with
+      | nil => exact absurd rfl (hc cl y)
+      | cons _ _ => rfl
+  | _ => rfl
+
+/-- … and a one-element list is unwrapped -/
+theorem first_of_getCore_single {fuel : Nat} {t : Val} {xp : Str} {d x : Val} {cl : Cls}
+    (h : getCore fuel t xp d false false = (t, .ok (.list cl [x]))) :
+    first fuel t xp d = (t, .ok x) := by
+  unfold first
+  rw [h]
+
+/-! ### `delete` on a rendered spelling -/
+
+theorem delete_spelling (fuel : Nat) (cls : Cls) (kvs : List (Str × Val)) (lead : Lead)
+    (steps : List StepSp) (c t' : Val) (r : Bool)
+    (hp : PlainSteps steps) (hne : steps ≠ []) (hget : stepsGet (.dict cls kvs) steps = some c)
+    (hdel : delAt (.dict cls kvs) (posOf (.dict cls kvs) steps) = some t')
+    (hf : fuel ≥ 2 * steps.length) :
+    delete fuel (.dict cls kvs) (renderSp lead steps) r =
+      ((if r then pruneUp t' (posOf (.dict cls kvs) steps).dropLast ((posOf (.dict cls kvs) steps).length - 1)
+        else t'), .ok ()) := by
+  have hs := spells_steps steps _ c hp hget
+  have htok := tokenize_renderSp lead steps hp
+  have hlen := toksOf_length_le steps
+  have htne := toksOf_ne_nil steps hne
+  unfold delete deleteTokens
+  simp only [htok]
+  cases r with
+  | false => exact deleteLoop_spelled fuel _ _ _ c t' hs htne hdel (by omega)
+  | true => exact deleteLoop_rec_spelled fuel _ _ _ c t' hs htne hdel (by omega)
 
 end N0.XPath
